@@ -899,7 +899,13 @@ class OmniParser(PVLParser):
                         )
                         return module, False  # return through parse_module()
                 else:
+                    # The previous value cannot be a parameter name, so
+                    # this '=' cannot be explained by a missing value;
+                    # nothing was consumed, so signal parse_module() to
+                    # ignore us (returning "keep parsing" here would make
+                    # it spin on this token forever).
                     tokens.send(t)
+                    raise Exception
             else:
                 # The next token isn't an equals sign or the module is
                 # empty, so we want return the token and signal
